@@ -1,109 +1,19 @@
-"""Per-property configuration of the verification driver."""
-K = 'github.com/ProjectSerenity/firefly/kernel'
-B = 'github.com/ProjectSerenity/firefly/kbuild'
+"""Per-property configuration of the verification driver.
 
-PROPS = {
-    'C15': {
-        'pkg': K + '/kfmt',
-        'tests': [
-            {'name': 'TestVerifC15', 'checks_quick': 60000, 'checks_thorough': 1600000},
-            {'name': 'TestVerifC15Raw', 'checks_quick': 20000, 'checks_thorough': 400000, 'shards_quick': 2},
-        ],
-        'fuzz': [{'name': 'FuzzVerifC15', 'seconds': 90}],
-        'rule': 'rapid generates a format AST (literal runs, %%, %[width]verb with verb in d/x/o/s/t) plus an argument '
-                'list (every built-in integer type at boundary values, strings/byte slices, bools, wrong types, too '
-                'few / too many); the output is compared with an independent reference formatter (itself cross-checked '
-                'against fmt.Sprintf) and AllocsPerRun must be 0. Non-trivial = >=2 verbs, >=1 explicit width and >=1 '
-                'argument that is an integer boundary value, a type mismatch, missing or surplus; distinct = different '
-                'hash of the JSON case. The Raw test feeds arbitrary format bytes + arguments and only requires no panic '
-                '(non-trivial there = >=2 percent signs and >=1 argument).',
-        'technique': 'rapid-generated format/argument cases vs. independent reference formatter (differential with fmt), AllocsPerRun, native fuzzing for no-panic',
-        'level_text': 'Generated-input search: every generated format/argument case is compared byte-for-byte with a reference formatter written from the statement and must not allocate; arbitrary format bytes must not panic. Exploration, not proof: the space is infinite, the generator aims at integer boundaries, widths around the 31 clamp and argument-count mismatches.',
-        'level_note': 'Trusts the reference formatter (cross-checked against fmt.Sprintf on the common sub-domain) and testing.AllocsPerRun on the host toolchain; escape analysis of the kernel toolchain may differ.',
-        'assumptions': ['negative octal/hex with a width: sign inside or outside the width are both accepted',
-                        '%t with a width: padded or unpadded are both accepted',
-                        'allocation freedom is measured with pre-boxed arguments and a non-allocating writer'],
-    },
-}
+Each property has its own file driver/props.d/<id>.py defining PROP = {...}:
+  pkg            import path of the package whose test binary hosts the harness
+  tests          list of generated tests: {name, kind ('rapid'|'plain'), checks_quick, checks_thorough,
+                 shards_quick, shards_thorough, shrinktime, steps}
+  fuzz           optional native fuzz targets (thorough tier): {name, seconds, workers}
+  rule           how cases are generated and what makes one non-trivial (goes into the evidence file)
+  technique, level_text, level_note, assumptions   (MANIFEST.json / evidence)
+  timeout_quick / timeout_thorough   seconds per test binary
+"""
+import glob, os, runpy
 
-PMM_ASSUME = ['the memory map is delivered as a real multiboot2 block (memory-map tag); C10 decides that the block is decoded correctly',
-              'vmm.EarlyReserveRegion / vmm.Map are replaced through the package seams by host memory and a recorder',
-              'frames consumed by the early allocator during Init are learnt from the frames passed to the map seam']
-
-PROPS['C01'] = {
-    'pkg': K + '/mm/pmm',
-    'tests': [{'name': 'TestVerifC01', 'checks_quick': 40000, 'checks_thorough': 200000}],
-    'rule': 'rapid generates a sorted non-overlapping memory map (1-8 regions, aligned or not, word-boundary frame counts, '
-            'all region types), a kernel placement with page-aligned start inside one available region, and an '
-            'alloc/free/drain/free-all history; pmm.Init runs on the real multiboot block and every frame returned by '
-            'mm.AllocFrame is checked against a set model (inside available RAM, not kernel, not early-consumed, not held). '
-            'Non-trivial = Init succeeded and (>=2 pools or a kernel inside a pool or a free followed by re-allocation of that '
-            'frame); distinct = hash of the JSON case.',
-    'technique': 'rapid model-based history testing against a set model of physical frames',
-    'level_text': 'Generated maps, kernel placements and alloc/free histories are executed against the real allocator and a set model; every returned frame is checked for membership and exclusivity after every step. Exploration of an infinite domain, aimed at bitmap word boundaries and unaligned regions.',
-    'level_note': 'Trusts the harness set model and the multiboot builder; early-consumed frames are taken from the map seam.',
-    'assumptions': PMM_ASSUME,
-}
-PROPS['C02'] = {
-    'pkg': K + '/mm/pmm',
-    'tests': [{'name': 'TestVerifC02', 'checks_quick': 60000, 'checks_thorough': 300000}],
-    'rule': 'memory maps and kernel placements as in C01 (incl. sub-page regions, kernel covering a region); n early '
-            'allocations up to exhaustion + 5. Oracle: each frame wholly inside available RAM, outside the kernel, strictly '
-            'ascending; nothing after out-of-memory; replay from reset state identical; real hand-over marks exactly kernel + '
-            'early frames. Non-trivial = >=2 available regions with a whole frame, >=2 allocations and a jump over the '
-            'kernel or into the next region.',
-    'technique': 'rapid generated maps vs. set-membership / monotonicity oracle and replay round-trip',
-    'level_text': 'Each generated map/kernel placement/allocation count is run through the real boot allocator; membership, strict monotonicity, out-of-memory stickiness, replay equality and the real hand-over into the bitmap allocator are asserted. Exploration.',
-    'level_note': 'Does not require that no usable frame is skipped (the statement does not promise it); skipped frames are reported as a statistic.',
-    'assumptions': PMM_ASSUME,
-}
-PROPS['C03'] = {
-    'pkg': K + '/mm/pmm',
-    'tests': [{'name': 'TestVerifC03', 'checks_quick': 40000, 'checks_thorough': 200000}],
-    'rule': 'as C01, with a pool of 1/63/64/65/128/129 frames forced into half of the cases and histories that also free '
-            'never-allocated, out-of-pool and twice-freed frames. Oracle: Init nil or (justified) out-of-memory, never a '
-            'panic; totals on the log line and in the allocator equal the model at every step; rejected frees change '
-            'nothing; draining yields exactly the usable set; a freed frame is exactly what comes back. Non-trivial = a '
-            'pool with size mod 64 in {0,1,63} that was fully drained, or >=1 rejected free.',
-    'technique': 'rapid model-based history testing: counters, error contract and exhaustive drain against a set model',
-    'level_text': 'Generated maps and histories; after every operation the reported totals must equal the model, every bad free must be rejected without state change, and a final drain must yield exactly the usable frames. Exploration aimed at bitmap word boundaries.',
-    'level_note': 'An out-of-memory report from Init is accepted only when the map cannot hold a generous upper bound of the allocator state.',
-    'assumptions': PMM_ASSUME + ['frees of kernel-image or early-consumed frames are not generated (unspecified)'],
-}
-
-PROPS['C08'] = {
-    'pkg': K + '/sync',
-    'tests': [
-        {'name': 'TestVerifC08', 'checks_quick': 3000, 'checks_thorough': 60000, 'shards_quick': 4, 'shards_thorough': 8},
-        {'name': 'TestVerifC08Stress', 'checks_quick': 60, 'checks_thorough': 1500, 'shards_quick': 1, 'shards_thorough': 1},
-    ],
-    'rule': '(1) rapid generates a linear history of (worker, acquire|try|release) executed by hand-shake on per-worker '
-            'goroutines and compared with an exact model (holder, set of blocked workers): try returns true iff free, an '
-            'Acquire issued while held must not return before a Release, exactly one waiter gets in per Release. '
-            'Non-trivial = >=1 Acquire issued while the lock was held. (2) generated per-worker programs (2-16 workers, '
-            'critical-section lengths, try percentage) run freely on all cores; holders counter, non-atomic counter and a '
-            '4-word record must stay consistent. Non-trivial = measured contention (failed tries or acquire attempts that '
-            'saw the lock held) > 0. distinct = hash of the JSON case.',
-    'technique': 'rapid model-based sequential histories + generated parallel stress with in-critical-section invariants',
-    'level_text': 'The sequential specification of Acquire/TryToAcquire/Release is decided exactly under a harness-owned schedule; mutual exclusion and visibility under true parallelism are sampled over generated programs with measured contention. Schedules are sampled, not enumerated.',
-    'level_note': 'yieldFn is set to runtime.Gosched (as the repository test does); x86-TSO hides memory-ordering defects; a defect needing one rare interleaving of two instructions can be missed.',
-    'assumptions': ['blocked = did not return within 300us while the model says the lock is held (delay can only hide a defect, never fake one)',
-                    'an Acquire that should proceed is given 5s'],
-    'timeout_quick': 240,
-}
-
-PROPS['C09'] = {
-    'pkg': K + '/mm/pmm',
-    'tests': [{'name': 'TestVerifC09', 'checks_quick': 3000, 'checks_thorough': 12000, 'shards_quick': 2, 'shards_thorough': 4}],
-    'rule': 'rapid generates 1-3 pools of 1-130 frames (initialised through the real pmm.Init) and 2-16 worker programs '
-            '(iterations, alloc percentage, bogus-free percentage, hold limit, salt) that run truly in parallel; an '
-            'ownership table updated with atomic swap detects a frame held twice; afterwards reserved totals, per-pool '
-            'free counters vs. bitmap bits and an exhaustive drain are checked; a progress watchdog detects blocked calls; '
-            'deterministic probes check that every return path releases the lock and that both calls wait for it. '
-            'Non-trivial = >=4 workers, out-of-memory hit at least once and measured lock contention > 0.',
-    'technique': 'rapid-generated parallel workloads with ownership-table invariant, quiescent-state accounting and deterministic lock-discipline probes',
-    'level_text': 'Sampled truly-parallel schedules on 16 cores with small pools (constant collisions, regular out-of-memory) plus exact, schedule-independent lock-discipline probes on all five return paths. Schedules are sampled, not enumerated.',
-    'level_note': 'The spinlock yields through runtime.Gosched via a verif-only export shim; "blocks forever" = no call completes for 8s, reproduced by forcing the lock free.',
-    'assumptions': PMM_ASSUME + ['double frees are exercised only in the sequential lock-discipline probe (a concurrent double free may legitimately free a frame re-allocated to someone else)'],
-    'timeout_quick': 300,
-}
+PROPS = {}
+NOT_APPLICABLE = {}
+_d = os.path.join(os.path.dirname(os.path.abspath(__file__)), 'props.d')
+for _f in sorted(glob.glob(os.path.join(_d, 'C*.py'))):
+    _ns = runpy.run_path(_f)
+    PROPS[os.path.basename(_f)[:-3]] = _ns['PROP']
